@@ -636,6 +636,19 @@ func (c *Conn) Seek(offset int64, whence int) (int64, error) {
 		return 0, fmt.Errorf("whence must be one of 0, 1, 2, or 3. (whence = %d)", whence)
 	}
 
+	if whence == SeekCurrent {
+		// The current offset may still be the placeholder for the first or
+		// the last offset of the partition (that is what a new connection
+		// starts with): the seek is then relative to what it stands for,
+		// which has to be asked for even when the range is not checked.
+		switch _, current := c.Offset(); current {
+		case SeekStart:
+			whence = SeekStart
+		case SeekEnd:
+			whence, offset = SeekEnd, -offset
+		}
+	}
+
 	if seekDontCheck {
 		if whence == SeekAbsolute {
 			c.mutex.Lock()
